@@ -202,7 +202,7 @@ theorem sil_persistOut (s : Sess) (seq : Int) (m : OutMsg) : Sil s (s.persistOut
 /-- `prep`: silent; the prepared message differs from the given one in its number only -/
 theorem prep_spec (s : Sess) (m : OutMsg) :
     Sil s (prep s m).2 ∧ ((prep s m).1 = none ∨ ∃ m', (prep s m).1 = some m' ∧ m'.kind = m.kind ∧ m'.f = m.f) := by
-  unfold prep
+  unfold prep prepCore
   simp only []
   split
   · split
@@ -214,7 +214,8 @@ theorem prep_spec (s : Sess) (m : OutMsg) :
     · exact ⟨sil_persistOut _ _ _, Or.inr ⟨_, rfl, rfl, rfl⟩⟩
 
 theorem prep_admin (s : Sess) (m : OutMsg) (h : isAdminKind m.kind = true) : ∃ m', (prep s m).1 = some m' ∧ m'.kind = m.kind ∧ m'.f = m.f := by
-  unfold prep
+  have h : isAdminKind (stamp s m).kind = true := h
+  unfold prep prepCore
   simp only [h, if_true]
   split <;> exact ⟨_, rfl, rfl, rfl⟩
 
@@ -239,6 +240,13 @@ inductive SendOut (g0 : G8) (s r : Sess) (m : OutMsg) (kept : List OutMsg) (writ
       (h : if writes then r.toSend = [] ∧ g8Of g0 r = wr (g8Of g0 s) (kept ++ [m'])
            else r.toSend = kept ++ [m'] ∧ g8Of g0 r = g8Of g0 s)
 
+/-- the outcome reads the message through its kind and fields only -/
+theorem SendOut.congr_msg {g0 : G8} {s r : Sess} {m1 m2 : OutMsg} {kept : List OutMsg} {w : Bool}
+    (h : SendOut g0 s r m1 kept w) (hk : m1.kind = m2.kind) (hf : m1.f = m2.f) : SendOut g0 s r m2 kept w := by
+  cases h with
+  | refused h => exact .refused h
+  | sent m' hk' hf' fr h => exact .sent m' (hk'.trans hk) (hf'.trans hf) fr h
+
 theorem queueForSend_spec (g0 : G8) (s : Sess) (m : OutMsg) : SendOut g0 s (queueForSend s m) m s.toSend false := by
   unfold queueForSend
   obtain ⟨hs, hm⟩ := prep_spec s m
@@ -259,7 +267,7 @@ theorem sendInReplyTo_spec (g0 : G8) (s : Sess) (m : OutMsg) :
   · rename_i h
     have : s.st.loggedOn = false := by simpa using h
     simp only [this, Bool.false_and]
-    exact queueForSend_spec g0 s m
+    exact (queueForSend_spec g0 s m.asNew).congr_msg rfl rfl
   · rename_i h
     have hl : s.st.loggedOn = true := by simpa using h
     obtain ⟨hs, hm⟩ := prep_spec s m
@@ -560,11 +568,12 @@ theorem pn_sendInReplyTo (g0 : G8) (s : Sess) (m : OutMsg) (hk5 : (m.kind == "5"
       exact ⟨fr, fun hW => (key hW).1, fun hS => SK_of hS fr (key hS.1).1 (by rw [(key hS.1).2, hk5']; simp)⟩
 
 /-- a Logout sent as a reply, anywhere but in the logon state -/
-theorem pl_sendLogout (g0 : G8) (s : Sess) (hst : s.st.isLogon = false) : PL g0 s (sendInReplyTo s (mkOut "5" [])) := by
-  cases sendInReplyTo_spec g0 s (mkOut "5" []) with
+theorem pl_sendLogoutMsg (g0 : G8) (s : Sess) (o : OutMsg) (ho5 : o.kind = "5") (hst : s.st.isLogon = false) :
+    PL g0 s (sendInReplyTo s o) := by
+  cases sendInReplyTo_spec g0 s o with
   | refused h => exact (h.pn g0).toPL
   | sent m' hk hf fr h =>
-    have ha' : appFirst m' = false := by unfold appFirst; rw [hk]; rfl
+    have ha' : appFirst m' = false := by unfold appFirst; rw [hk, ho5]; rfl
     cases hwr : (s.st.loggedOn && s.out)
     · rw [hwr] at h
       simp only [Bool.false_eq_true, if_false] at h
@@ -580,6 +589,9 @@ theorem pl_sendLogout (g0 : G8) (s : Sess) (hst : s.st.isLogon = false) : PL g0 
             have := (hW.fresh hwr.2 hfr).1
             rw [hst] at this; cases this)
           (Or.inr ⟨rfl, hwr.1⟩) ha').1⟩
+
+theorem pl_sendLogout (g0 : G8) (s : Sess) (hst : s.st.isLogon = false) : PL g0 s (sendInReplyTo s (mkOut "5" [])) :=
+  pl_sendLogoutMsg g0 s _ rfl hst
 
 /-- `dropAndSend` of a Logon: fine in every state -/
 theorem pn_dropAndSend_logon (g0 : G8) (s : Sess) (m : OutMsg) (hk : m.kind = "A") : PN g0 s (dropAndSend s m) := by
@@ -602,11 +614,11 @@ theorem pn_dropAndSend_logon (g0 : G8) (s : Sess) (m : OutMsg) (hk : m.kind = "A
       exact ⟨fr, fun hW => (key hW).1, fun hS => SK_of hS fr (key hS.1).1 (by rw [(key hS.1).2, hk5']; simp)⟩
 
 /-- `dropAndSend` of a Logout: fine in every state for the weak invariant -/
-theorem pl_dropAndSend_logout (g0 : G8) (s : Sess) : PL g0 s (dropAndSend s (mkOut "5" [])) := by
-  cases dropAndSend_spec g0 s (mkOut "5" []) with
+theorem pl_dropAndSend_logoutMsg (g0 : G8) (s : Sess) (o : OutMsg) (ho5 : o.kind = "5") : PL g0 s (dropAndSend s o) := by
+  cases dropAndSend_spec g0 s o with
   | refused h => exact (h.pn g0).toPL
   | sent m' hk' hf fr h =>
-    have hk5 : m'.kind = "5" := hk'
+    have hk5 : m'.kind = "5" := hk'.trans ho5
     have ha' : appFirst m' = false := by unfold appFirst; rw [hk5]; rfl
     cases hout : s.out
     · rw [hout] at h
@@ -615,6 +627,9 @@ theorem pl_dropAndSend_logout (g0 : G8) (s : Sess) : PL g0 s (dropAndSend s (mkO
     · rw [hout] at h
       simp only [if_true] at h
       exact ⟨fr, fun hW => (WK_write hW fr h.1 [] m' h.2 hout (fun _ => ⟨rfl, Or.inr hk5⟩) (Or.inl rfl) ha').1⟩
+
+theorem pl_dropAndSend_logout (g0 : G8) (s : Sess) : PL g0 s (dropAndSend s (mkOut "5" [])) :=
+  pl_dropAndSend_logoutMsg g0 s _ rfl
 
 /-- a replay element, in a state that has been logged on -/
 theorem pn_enqueueAndSend (g0 : G8) (s : Sess) (m : OutMsg) (hn : (s.st.loggedOn || s.st.isLogout) = true)
